@@ -9,6 +9,7 @@ package main
 // wins the race with the goroutine's first instruction waits for nothing.)
 
 import (
+	"bytes"
 	"context"
 	"fmt"
 	"net"
@@ -464,6 +465,56 @@ func cliWriteErrorReuseProbe(v6 bool) string {
 	})
 	if status != "ok" && what == "" {
 		what = "write-error-reuse probe: bubble ended with " + status
+	}
+	return what
+}
+
+// Probe "transmission over the raw connection" of oracle c12 (virtual time): nclient4 as it
+// runs in production, over nclient4.NewBroadcastUDPConn - every try puts one frame on the
+// underlying connection whose UDP payload is the request's encoding, whole, whatever its
+// size (300, 1500, 1501, 2014, 4000 octets).
+// (seeded change C12-17: frames built in a per-connection scratch array of 28+1500 octets,
+// longer requests cut to fit.)
+func cliRawTransmissionProbe() string {
+	var what string
+	const T = 400 * time.Millisecond
+	status := inBubble(20*time.Second, func() {
+		start := time.Now()
+		conn := cli_newScriptConn(func() int64 { return int64(time.Since(start)) })
+		raw := nclient4.NewBroadcastUDPConn(conn, &net.UDPAddr{IP: net.IPv4zero, Port: 68})
+		c, err := nclient4.NewWithConn(raw, clHW, nclient4.WithTimeout(T), nclient4.WithRetry(2))
+		if err != nil {
+			what = "NewWithConn over the raw connection: " + err.Error()
+			return
+		}
+		for i, size := range []int{300, 1500, 1501, 2014, 4000} {
+			req := req4(uint32(cliMXidBase + 20 + i))
+			base := len(req.ToBytes())
+			for v := size - base; v > 0; v-- {
+				if v+2*((v+254)/255) == size-base {
+					req.UpdateOption(dhcpv4.OptGeneric(dhcpv4.GenericOptionCode(231), bytes.Repeat([]byte{byte(0x30 + i)}, v)))
+					break
+				}
+			}
+			want := req.ToBytes()
+			sent0 := len(conn.snapshot())
+			_, err := c.SendAndRead(context.Background(), clDest4, req, nil)
+			frames := conn.snapshot()[sent0:]
+			if err != nclient4.ErrNoResponse || len(frames) != 2 {
+				what = fmt.Sprintf("a request of %d octets over the raw connection (T=400ms, 2 tries, nobody answers): %d frames, error %v; want 2 frames and the no-response error", len(want), len(frames), err)
+				return
+			}
+			for k, f := range frames {
+				if len(f.bytes) < 28 || !bytes.Equal(f.bytes[28:], want) {
+					what = fmt.Sprintf("try %d of a request of %d octets over the raw connection: the frame carries a UDP payload of %d octets that is not the request's encoding", k+1, len(want), len(f.bytes)-28)
+					return
+				}
+			}
+		}
+		c.Close()
+	})
+	if status != "ok" && what == "" {
+		what = "raw transmission probe: bubble ended with " + status
 	}
 	return what
 }
